@@ -190,7 +190,7 @@ func (e *Exec) buildX(t *TxInfo) error {
 		if o.Addr != "$" {
 			to = e.w.AddrOf[o.Addr]
 		}
-		tx.TxOutputs = append(tx.TxOutputs, &protos.TxOutput{ToAddr: []byte(to), Amount: o.Amt.Bytes(), FrozenHeight: o.Frozen})
+		tx.TxOutputs = append(tx.TxOutputs, &protos.TxOutput{ToAddr: []byte(to), Amount: o.amtBytes(), FrozenHeight: o.Frozen})
 	}
 	tx.Coinbase = t.Coinbase
 	var err error
@@ -817,7 +817,7 @@ func (e *Exec) exec1(op string, pos []string, kv map[string]string, line string)
 			if o.Addr != "$" {
 				to = w.AddrOf[o.Addr]
 			}
-			tx.TxOutputs = append(tx.TxOutputs, &protos.TxOutput{ToAddr: []byte(to), Amount: o.Amt.Bytes(), FrozenHeight: o.Frozen})
+			tx.TxOutputs = append(tx.TxOutputs, &protos.TxOutput{ToAddr: []byte(to), Amount: o.amtBytes(), FrozenHeight: o.Frozen})
 		}
 		t.Tx, err = chainlib.Sign(tx, e.acct(t.From))
 		if err != nil {
